@@ -135,6 +135,11 @@ func (s *State) appendOp(site ssa.Instruction, a, b Val) Val {
 			s.assume(eq(app("ssum_"+f, newInner, res.Sl.Off, app("+", res.Sl.Off, newLen)),
 				app("+", app("ssum_"+f, oldInner, a.Sl.Off, app("+", a.Sl.Off, a.Sl.Len)), app(f, appended))))
 		}
+		if c.strOrder {
+			s.declOrder()
+			s.assume(eq(app("scat_nsx", newInner, res.Sl.Off, app("+", res.Sl.Off, newLen)),
+				app("cat", app("scat_nsx", oldInner, a.Sl.Off, app("+", a.Sl.Off, a.Sl.Len)), app("nsx", appended))))
+		}
 	}
 	// appending nothing to a nil slice yields nil
 	if n != "1" {
